@@ -22,8 +22,8 @@ QUICK_N = 40
 QUICK_PER_PKG = 20
 
 THOROUGH_MCS = ["MC_StorageModels_vecA", "MC_StorageModels_vecB", "MC_StorageModels_vecC", "MC_StorageModels_maps",
-                "MC_StorageModels_mapV", "MC_StorageModels_slices", "MC_StorageModels_pair"]
-QUICK_MCS = ["MC_StorageModels_vecA_q", "MC_StorageModels_maps", "MC_StorageModels_slices", "MC_StorageModels_pair"]
+                "MC_StorageModels_mapN", "MC_StorageModels_mapV", "MC_StorageModels_slices", "MC_StorageModels_slices2", "MC_StorageModels_pair"]
+QUICK_MCS = ["MC_StorageModels_vecA_q", "MC_StorageModels_maps", "MC_StorageModels_slices2", "MC_StorageModels_pair"]
 
 
 def package(pid, recs):
